@@ -206,3 +206,23 @@ Example exb_nontrivial :
   /\ option_map (fun c => length (c_mirror c)) (find (fun c => N.eqb (c_id c) 0) (w_clients (world_run all_fixed (firstn 4 exb) empty_world))) = Some 2%nat
   /\ option_map (fun c => length (c_mirror c)) (find (fun c => N.eqb (c_id c) 0) (w_clients (world_run all_fixed exb empty_world))) = Some 1%nat.
 Proof. vm_compute. repeat split; reflexivity. Qed.
+
+(* the other order: unsubscribe the old one first, then SUBSCRIBE: the new one, then drop one more, all in one BATCH *)
+Definition exu : list event :=
+  [ EAttach 0 1 10; EAttach 1 1 11;
+    ECmd 1 (CSetData 0 [([21], 6); ([22], 2); ([23], 7)]);
+    ECmd 0 (CSubscribe false [(Rel [a_star], None); (Rel [CLit 23], None)]);
+    ECmd 0 (CBatch [CUnsubscribe [Rel [a_star]]; CSetMax 3; CSubscribe false [(Rel [CLit 21], Some 4)]; CSetData 0 [([30], 1)];
+                    CUnsubscribe [Rel [CLit 23]]]);
+    ECmd 1 (CSetData 0 [([21], 9); ([22], 8); ([23], 1)]) ].
+
+Example exu_premises : premises_b all_fixed exu 0 = true.
+Proof. vm_compute. reflexivity. Qed.
+
+Example exu_nontrivial :
+  holds_at (world_run all_fixed exu empty_world) 0 [1; 11; 21] = true
+  /\ holds_at (world_run all_fixed exu empty_world) 0 [1; 11; 22] = true
+  /\ holds_at (world_run all_fixed exu empty_world) 0 [1; 11; 23] = true
+  /\ option_map (fun c => length (c_mirror c)) (find (fun c => N.eqb (c_id c) 0) (w_clients (world_run all_fixed (firstn 4 exu) empty_world))) = Some 3%nat
+  /\ option_map (fun c => length (c_mirror c)) (find (fun c => N.eqb (c_id c) 0) (w_clients (world_run all_fixed exu empty_world))) = Some 1%nat.
+Proof. vm_compute. repeat split; reflexivity. Qed.
